@@ -631,6 +631,28 @@ def rule_R7stack(text, applied):
     return t
 
 
+def rule_R7stackrev(text, applied):
+    """DecisionTracker::stack() is `self.stack.iter().copied()` (decision_tracker.rs).
+    `for D in E.stack().rev() {` -> `let mut k_: usize = E.stack.len(); while k_ > 0 { k_ -= 1; let D = E.stack[k_];`
+    (last to first, continue-safe); `E.stack().last()` -> `vlast_copied(&E.stack)` (Iterator::last of a copied slice
+    iterator = the last element, by value)."""
+    cnt = 0
+    while True:
+        m_text = mask(text)
+        m = re.search(r"\bfor\s+(\w+)\s+in\s+((?:\w+\s*\.\s*)*\w+)\s*\.\s*stack\(\)\s*\.\s*rev\(\)\s*\{", m_text)
+        if not m:
+            break
+        recv = "".join(m.group(2).split())
+        kv = f"k{cnt}_"
+        head = f"let mut {kv}: usize = {recv}.stack.len(); while {kv} > 0 {{ {kv} -= 1; let {m.group(1)} = {recv}.stack[{kv}];"
+        text = text[:m.start()] + _keep_newlines(text[m.start():m.end()], head) + text[m.end():]
+        cnt += 1
+    t, n = _sub_masked(text, r"((?:\w+\s*\.\s*)*\w+)\s*\.\s*stack\(\)\s*\.\s*last\(\)", lambda m, s_: f"vlast_copied(&{''.join(m.group(1).split())}.stack)")
+    if cnt or n:
+        applied.append(f"R7stackrevx{cnt + n}")
+    return t
+
+
 def rule_R7range(text, applied):
     """`for I in A..B {` -> `let hi_ = B; let mut I_n = A; while I_n < hi_ { let I = I_n; I_n += 1;` (continue-safe;
     the upper bound is evaluated once, as in the original)."""
@@ -1235,7 +1257,7 @@ def rule_const(text, applied):
 
 
 RULES = {
-    "R20": rule_R20, "R21": rule_R21,
+    "R20": rule_R20, "R21": rule_R21, "R7stackrev": rule_R7stackrev,
     "R1": rule_R1, "R2": rule_R2, "R2ref": rule_R2ref, "R3": rule_R3, "R4": rule_R4, "R5": rule_R5,
     "R8max": rule_R8max, "R8cmpmax": rule_R8cmpmax, "R8resize_none": rule_R8resize_none, "R9": rule_R9, "R8position": rule_R8position, "R8rotate": rule_R8rotate, "R12refcell": rule_R12refcell,
     "R8slice": rule_R8slice, "R7iter": rule_R7iter, "R8bitget": rule_R8bitget, "R8intonext": rule_R8intonext, "R8rposition": rule_R8rposition, "R8contains": rule_R8contains, "R12cell": rule_R12cell, "R8resize_veccap": rule_R8resize_veccap, "R8collectid": rule_R8collectid, "R8index": rule_R8index, "subst": rule_subst,
@@ -1471,6 +1493,18 @@ def build_fn(src: Source, selector, opts, sections, emitter: Emitter, unit_rules
             elif key.strip() == "hint start":
                 # right after the opening brace of the body
                 add_insert(sig_end + 1, "\n" + val.rstrip("\n") + "\n")
+            elif key.startswith("hint afterloop ") or key.startswith("hint endloop "):
+                # right after the closing brace of a loop (afterloop) / as the last statements of its body (endloop);
+                # the loop is selected like in //@loop: regex on its header, k-th match
+                hm = re.match(r"hint (afterloop|endloop) /(.*)/\s*(\d+)?$", key)
+                if not hm:
+                    raise ExtractError(f"bad hint directive `{key}`")
+                kk = int(hm.group(3) or 1)
+                hits = [lp for lp in lps if re.search(hm.group(2), m_text[lp[0]:lp[1]])]
+                if len(hits) < kk:
+                    raise ExtractError(f"{selector}: loop /{hm.group(2)}/ #{kk} not found (lost anchor)")
+                cb_ = match_close(m_text, hits[kk - 1][1])
+                add_insert(cb_ + 1 if hm.group(1) == "afterloop" else cb_, "\n" + val.rstrip("\n") + "\n")
             elif key.startswith("hint "):
                 hm = re.match(r"hint (before|after) /(.*)/\s*(\d+)?$", key)
                 if not hm:
